@@ -253,7 +253,7 @@ func c07Run(ctx *Ctx, c c07Case) {
 
 func TestC07(t *testing.T) {
 	r := newRec("C07",
-		"exhaustive: {+ - * / div mod = != < <= > >= & is as unary± indexer} × operand position × partner operands, and every name of funcs.Clone() ∪ experimental table × every arity Compile accepts × {input, each argument position}; the empty collection is delivered as the literal {}, as an absent element path (Patient.photo), as an empty environment variable and as a nil collection variable; the other positions hold the well-typed operands of M-FN, and every argument position is also tried under each of 33 other receivers (other types, other cardinalities, FHIR elements) for which the call with well-typed arguments yields a value; non-trivial = the program compiled; every tuple is distinct",
+		"exhaustive: {+ - * / div mod = != < <= > >= & is as unary± indexer} × operand position × partner operands (well-typed ones, multi-item ones, and every arithmetic/comparison/equality operator against each of the 33 candidate receivers), and every name of funcs.Clone() ∪ experimental table × every arity Compile accepts × {input, each argument position}; the empty collection is delivered as the literal {}, as an absent element path (Patient.photo), as an empty environment variable and as a nil collection variable; the other positions hold the well-typed operands of M-FN, and every argument position is also tried under each of 33 other receivers (other types, other cardinalities, FHIR elements) for which the call with well-typed arguments yields a value; non-trivial = the program compiled; every tuple is distinct",
 		"M-FN (harness/common_fn_test.go) classifies each argument position as single-value / criteria / collection from the N1 signatures", "aggregates listed by the property (exists, empty, count, all, allTrue/anyTrue/allFalse/anyFalse, isDistinct, iif, now/today/timeOfDay) are executed but not asserted on empty input")
 	runProperty(t, r, Stage[c07Case]{Name: "matrix", Enum: c07Enum, Run: c07Run})
 }
